@@ -600,6 +600,20 @@ func refreshJSON(path, arr, idKey string, c RefreshCase, appendIDs []string) err
 			es[i], es[j] = es[j], es[i]
 		}
 	}
+	if c.Mode == "shrink" {
+		// one active entry becomes deprecated and the last two entries disappear: every table changes
+		// length (a generator that rewrites files in place must cope with shorter output)
+		flipped := false
+		for i := len(es) - 3; i >= 0 && !flipped; i-- {
+			if d, _ := es[i]["isDeprecatedLicenseId"].(bool); !d {
+				if id, _ := es[i][idKey].(string); !strings.Contains(id, "-only") && !strings.Contains(id, "-or-later") && len(Tbl().Positions(id)) == 0 {
+					es[i]["isDeprecatedLicenseId"] = true
+					flipped = true
+				}
+			}
+		}
+		es = es[:len(es)-2]
+	}
 	for _, id := range appendIDs {
 		es = append(es, map[string]any{idKey: id, "isDeprecatedLicenseId": false, "name": "refreshed entry " + id, "reference": "https://example.invalid/" + id})
 	}
@@ -658,9 +672,9 @@ func checkC12Refresh(c RefreshCase) Outcome {
 
 func TestC12_Refresh(t *testing.T) {
 	cfg := Cfg()
-	rec := NewRecorder("C12", "refresh", "the repository (cmd/ + spdxexp/) is copied to a scratch directory, cmd/licenses.json and cmd/exceptions.json are refreshed (entries reversed / shuffled with a seeded LCG / new benign ids appended at the end), the tables are regenerated with the repository's own generator and the library is rebuilt on them; oracle: tables equal the refreshed JSON, every listed license id validates and satisfies itself, every exception id is accepted after WITH and rejected as a license; non-trivial = every refresh; distinct by refresh")
+	rec := NewRecorder("C12", "refresh", "the repository (cmd/ + spdxexp/) is copied to a scratch directory, cmd/licenses.json and cmd/exceptions.json are refreshed (entries reversed / shuffled with a seeded LCG / new benign ids appended at the end / an entry flipped to deprecated and the last two removed, so that every table shrinks), the tables are regenerated with the repository's own generator and the library is rebuilt on them; oracle: tables equal the refreshed JSON, every listed license id validates and satisfies itself, every exception id is accepted after WITH and rejected as a license; non-trivial = every refresh; distinct by refresh")
 	defer rec.Finish(t)
-	cases := []RefreshCase{{Mode: "reverse"}, {Mode: "append", Append: []string{"BSD-Seed-Refresh", "aaa-first-1.0", "Zzz-Last-2.0", "0-digit-first"}}, {Mode: "shuffle", Seed: int(cfg.Seed)}}
+	cases := []RefreshCase{{Mode: "reverse"}, {Mode: "shrink"}, {Mode: "append", Append: []string{"BSD-Seed-Refresh", "aaa-first-1.0", "Zzz-Last-2.0", "0-digit-first"}}, {Mode: "shuffle", Seed: int(cfg.Seed)}}
 	for i := 0; i < cfg.Pick(0, 9); i++ {
 		cases = append(cases, RefreshCase{Mode: "shuffle", Seed: int(cfg.Seed) + 1 + i}, RefreshCase{Mode: "mixed", Append: []string{fmt.Sprintf("Refresh-%d.0", i), "m-middle"}})
 	}
